@@ -14,6 +14,7 @@ from ..common import Bad, Result
 
 ID = 'C20'
 TC = kp.TokenCategory
+CONSTS0 = SN.constants()  # the converters read BEKERN_CATEGORIES: an API call must not change what they will use
 RULE = ('Hypothesis documents (profile "full": non-ASCII lyrics, quotes, commas) rendered with LF or CRLF line ends, with '
         'or without final newline, some with 1-2 malformed cells, written to a fresh temporary directory (removed at '
         'the end of every case).  Oracles: load(path) vs loads(text): equal deep snapshots, equal error lists, equal '
@@ -89,7 +90,8 @@ def option_sets(draw, n):
     if draw(st.booleans()):
         o['encoding'] = draw(st.sampled_from(['kern', 'ekern', 'bkern', 'bekern']))
     if draw(st.booleans()):
-        o['include'] = draw(st.lists(st.sampled_from(cats.ALL), min_size=1, max_size=5, unique=True))
+        # sometimes the very set the converters use, passed as the object itself
+        o['include'] = draw(st.one_of(st.lists(st.sampled_from(cats.ALL), min_size=1, max_size=5, unique=True), st.just('BEKERN')))
     if draw(st.integers(0, 2)) == 0:
         o['exclude'] = draw(st.lists(st.sampled_from(cats.ALL), max_size=3, unique=True))
     if draw(st.integers(0, 2)) == 0:
@@ -127,7 +129,7 @@ def kw_of(o):
         kw['encoding'] = K.ENCODINGS[o['encoding']]
     for k in ('include', 'exclude'):
         if k in o:
-            kw[k] = [TC[x] for x in o[k]]
+            kw[k] = kp.BEKERN_CATEGORIES if o[k] == 'BEKERN' else [TC[x] for x in o[k]]
     if 'spine_ids' in o:
         kw['spine_ids'] = list(o['spine_ids'])
     return kw
@@ -180,6 +182,11 @@ def check(case):
             got = read(q)
             if got != exp:
                 raise Bad('dump-differs', f'dump({K._kwrepr(kw)}) wrote {got!r}; dumps returns {exp!r}', opts=o)
+        c_now = SN.constants()
+        if c_now != CONSTS0:
+            ks = [k for k in c_now if c_now[k] != CONSTS0[k]]
+            raise Bad('constants-changed', f'after dump/dumps calls the module constants {ks} differ: {CONSTS0[ks[0]]} -> {c_now[ks[0]]} '
+                                           f'(the command-line converters use them)')
         # ---- CLI on a single file (only when it imports cleanly)
         evals = 2 + len(case['opts'])
         if not e1:
